@@ -1,2 +1,38 @@
-(* C05 -- theorem statements are being added; see DESIGN.md. *)
-From HS Require Import Lib.Base.
+(* C05 -- If-Range: partial content only against an identical strong validator. *)
+From HS Require Import Lib.Base Lib.Bytes Model.Etag Model.Serve Spec.Validators Proofs.ServeP Proofs.DecisionP Proofs.EchoP.
+
+(* The gate, for every ETag and every If-Range value (any bytes): the Range header stays in force
+   iff If-Range is absent, or the entity has an ETag that begins with a double quote (is strong)
+   and the If-Range value is byte-identical to it. Dates, weak tags on either side, prefixes,
+   case variants, garbage: Range is dropped. *)
+Theorem c05_gate : forall etag req,
+  if_range_gate etag req =
+  match r_if_range req with
+  | None => (r_range req, true)
+  | Some ifr =>
+      match etag with
+      | Some e => if beq_bytes ifr e && starts_with DQ e then (r_range req, false) else (None, true)
+      | None => (None, true)
+      end
+  end.
+Proof. exact gate_spec. Qed.
+
+(* Never 206 unless If-Range is absent or matches: for every request and entity. *)
+Theorem c05_never_206 : forall fmt_date parse_date now ent req r,
+  e_len ent < U64 -> serve_model fmt_date parse_date now ent req = Ok r -> status r = 206 ->
+  r_if_range req = None \/ exists ifr, r_if_range req = Some ifr /\ if_range_matches (e_etag ent) ifr.
+Proof. exact never_206_without_matching_if_range. Qed.
+
+Theorem c05_mismatch_ignores_range : forall etag req ifr,
+  r_if_range req = Some ifr -> ~ if_range_matches etag ifr -> if_range_gate etag req = (None, true).
+Proof. exact if_range_mismatch_ignores_range. Qed.
+(* with the matching strong tag the Range header is still honoured (and entity headers are
+   left out of the partial response, RFC 7233 section 4.1) *)
+Theorem c05_match_keeps_range : forall etag req ifr,
+  r_if_range req = Some ifr -> if_range_matches etag ifr -> if_range_gate etag req = (r_range req, false).
+Proof. exact if_range_match_keeps_range. Qed.
+
+Print Assumptions c05_gate.
+Print Assumptions c05_never_206.
+Print Assumptions c05_mismatch_ignores_range.
+Print Assumptions c05_match_keeps_range.
